@@ -89,7 +89,7 @@ var randFuncs = map[string]string{
 	"Int63n": "RandInt63n", "Perm": "RandPerm", "Shuffle": "RandShuffle", "Seed": "RandSeed", "Read": "RandRead",
 }
 
-var syncTypes = map[string]string{"Mutex": "Mutex", "RWMutex": "RWMutex", "Once": "Once", "Pool": "Pool", "Map": "SyncMap"}
+var syncTypes = map[string]string{"Mutex": "Mutex", "RWMutex": "RWMutex", "Once": "Once", "Pool": "Pool", "Map": "SyncMap", "WaitGroup": "WaitGroup"}
 
 // functions/types that the simulator does not model: their presence in the
 // code under test stops the check (exit 3) instead of letting it pass blind.
@@ -101,7 +101,7 @@ var unmodelledFuncs = map[string]bool{
 	"time.After": true, "time.NewTimer": true, "time.Tick": true, "time.AfterFunc": true, "time.NewTicker": true,
 	"crypto/rand.Read": true, "crypto/rand.Int": true,
 }
-var unmodelledSyncTypes = map[string]bool{"WaitGroup": true, "Cond": true}
+var unmodelledSyncTypes = map[string]bool{"Cond": true}
 
 type rewriter struct {
 	fset  *token.FileSet
@@ -244,22 +244,8 @@ func (rw *rewriter) file(p *packages.Package, name string, f *ast.File) {
 		switch n := c.Node().(type) {
 		case *ast.FuncDecl:
 			funcName = declName(n)
-		case *ast.GoStmt:
-			rw.unmodelled(n, "go statement")
-		case *ast.SendStmt:
-			rw.unmodelled(n, "channel send")
 		case *ast.SelectStmt:
 			rw.unmodelled(n, "select")
-		case *ast.UnaryExpr:
-			if n.Op == token.ARROW {
-				rw.unmodelled(n, "channel receive")
-			}
-		case *ast.RangeStmt:
-			if t := info.TypeOf(n.X); t != nil {
-				if _, ok := t.Underlying().(*types.Chan); ok {
-					rw.unmodelled(n, "range over channel")
-				}
-			}
 		}
 		return true
 	}, func(c *astutil.Cursor) bool {
@@ -313,7 +299,91 @@ func (rw *rewriter) file(p *packages.Package, name string, f *ast.File) {
 					rw.unmodelled(n, key)
 				}
 			}
+		case *ast.GoStmt:
+			// go f(a, b)  ->  { sima0, sima1 := a, b; simrt.Go(func() { f(sima0, sima1) }) }
+			call := n.Call
+			var pre ast.Stmt
+			if len(call.Args) > 0 && !call.Ellipsis.IsValid() {
+				single := true
+				for _, a := range call.Args {
+					if tv, ok := info.Types[a]; ok {
+						if _, isTuple := tv.Type.(*types.Tuple); isTuple {
+							single = false
+						}
+					}
+				}
+				if single {
+					var lhs, args []ast.Expr
+					for i := range call.Args {
+						id := ast.NewIdent(fmt.Sprintf("simgoarg%d_%d", len(rw.table.Sites), i))
+						lhs = append(lhs, id)
+						args = append(args, id)
+					}
+					pre = &ast.AssignStmt{Lhs: lhs, Tok: token.DEFINE, Rhs: call.Args}
+					call = &ast.CallExpr{Fun: call.Fun, Args: args}
+				}
+			}
+			goCall := &ast.ExprStmt{X: &ast.CallExpr{Fun: simrtSel("Go"), Args: []ast.Expr{
+				&ast.FuncLit{Type: &ast.FuncType{Params: &ast.FieldList{}}, Body: &ast.BlockStmt{List: []ast.Stmt{&ast.ExprStmt{X: call}}}},
+			}}}
+			blk := &ast.BlockStmt{}
+			if pre != nil {
+				blk.List = append(blk.List, pre)
+			}
+			blk.List = append(blk.List, goCall)
+			c.Replace(blk)
+			used = true
+			rw.table.Seams["go"]++
+		case *ast.SendStmt:
+			c.Replace(&ast.ExprStmt{X: &ast.CallExpr{Fun: simrtSel("ChanSend"), Args: []ast.Expr{n.Chan, n.Value}}})
+			used = true
+			rw.table.Seams["chan"]++
+		case *ast.UnaryExpr:
+			if n.Op == token.ARROW {
+				fn := "ChanRecv"
+				// v, ok := <-ch
+				if as, ok := c.Parent().(*ast.AssignStmt); ok && len(as.Lhs) == 2 && len(as.Rhs) == 1 && as.Rhs[0] == ast.Expr(n) {
+					fn = "ChanRecv2"
+				}
+				if vs, ok := c.Parent().(*ast.ValueSpec); ok && len(vs.Names) == 2 && len(vs.Values) == 1 {
+					fn = "ChanRecv2"
+				}
+				c.Replace(&ast.CallExpr{Fun: simrtSel(fn), Args: []ast.Expr{n.X}})
+				used = true
+				rw.table.Seams["chan"]++
+			}
+		case *ast.RangeStmt:
+			if t := info.TypeOf(n.X); t != nil {
+				if _, ok := t.Underlying().(*types.Chan); ok {
+					// for v := range ch { body }  ->  for { v, simok := simrt.ChanRecv2(ch); if !simok { break }; body }
+					okv := ast.NewIdent(fmt.Sprintf("simchok%d", len(rw.table.Sites)+rw.table.Seams["chan"]))
+					var key ast.Expr = ast.NewIdent("_")
+					if n.Key != nil {
+						key = n.Key
+					}
+					tok := token.DEFINE
+					var pre []ast.Stmt
+					if n.Tok == token.ASSIGN {
+						tok = token.ASSIGN
+						pre = append(pre, &ast.DeclStmt{Decl: &ast.GenDecl{Tok: token.VAR, Specs: []ast.Spec{&ast.ValueSpec{Names: []*ast.Ident{okv}, Type: ast.NewIdent("bool")}}}})
+					}
+					pre = append(pre, &ast.AssignStmt{Lhs: []ast.Expr{key, okv}, Tok: tok, Rhs: []ast.Expr{&ast.CallExpr{Fun: simrtSel("ChanRecv2"), Args: []ast.Expr{n.X}}}})
+					pre = append(pre, &ast.IfStmt{Cond: &ast.UnaryExpr{Op: token.NOT, X: okv}, Body: &ast.BlockStmt{List: []ast.Stmt{&ast.BranchStmt{Tok: token.BREAK}}}})
+					body := &ast.BlockStmt{List: append(pre, n.Body.List...)}
+					c.Replace(&ast.ForStmt{Body: body})
+					used = true
+					rw.table.Seams["chan"]++
+				}
+			}
 		case *ast.CallExpr:
+			if id, ok := n.Fun.(*ast.Ident); ok && id.Name == "close" && len(n.Args) == 1 {
+				if _, ok := info.Uses[id].(*types.Builtin); ok {
+					c.Replace(&ast.CallExpr{Fun: simrtSel("ChanClose"), Args: n.Args})
+					used = true
+					rw.table.Seams["chan"]++
+					return true
+				}
+			}
 			if id, ok := n.Fun.(*ast.Ident); ok && id.Name == "recover" && len(n.Args) == 0 {
 				if _, ok := info.Uses[id].(*types.Builtin); ok {
 					fl, ln := rw.pos(n)
@@ -324,15 +394,7 @@ func (rw *rewriter) file(p *packages.Package, name string, f *ast.File) {
 					rw.table.Seams["recover"]++
 				}
 			}
-			if id, ok := n.Fun.(*ast.Ident); ok && id.Name == "make" && len(n.Args) > 0 {
-				if _, ok := info.Uses[id].(*types.Builtin); ok {
-					if t := info.TypeOf(n.Args[0]); t != nil {
-						if _, ok := t.Underlying().(*types.Chan); ok {
-							rw.unmodelled(n, "make(chan)")
-						}
-					}
-				}
-			}
+
 		}
 		return true
 	})
